@@ -33,10 +33,11 @@ func zzParseClean(text string) (ok bool, out string) {
 // accepts, the formatted output parses again without errors and formatting it again
 // changes nothing.
 func HarnessC31Idem() {
-	p := zzC30Prefixes[zz.Choice(len(zzC30Prefixes))]
+	pi := zz.Choice(len(zzC30Prefixes))
+	p := zzC30Prefixes[pi]
 	k := 1
-	if zz.Tier() == 1 {
-		k = 2
+	if zz.Tier() == 1 && pi < 3 {
+		k = 2 // (two arbitrary bytes after the three shortest prefixes only)
 	}
 	text := p + zz.String(zz.IntRange(0, k))
 	zz.Assume(utf8.ValidString(text))
